@@ -76,13 +76,13 @@ class World:
     def project(self):
         m = {}
         for n in PLAIN:
-            m[n] = [int(round(v / self.q[i])) for i, v in enumerate(self.s[n].mol.to_array())]
+            m[n] = [int(max(min(round(v / self.q[i]), 4e8), -4e8)) for i, v in enumerate(self.s[n].mol.to_array())]
         for ph, name in (('g', 'msg'), ('l', 'msl')):
             try:
                 row = np.asarray(self.ms.imol[ph].to_array(), float)
             except Exception:
                 row = np.zeros(len(IDS))
-            m[name] = [int(round(v / self.q[i])) for i, v in enumerate(row)]
+            m[name] = [int(max(min(round(v / self.q[i]), 4e8), -4e8)) for i, v in enumerate(row)]
         return dict(m=m)
 
     def apply(self, op, a):
